@@ -4,9 +4,9 @@ import LokiModel.C23.Model
 
 * `item-hash-case`: `Item.__eq__` lower-cases, `Item.__hash__` hashes the stored name: items whose names differ only
   in case are `==` but hash differently; a set holds both and `in` on a set/dict misses.
-* `duplicate-suffix-case`: `DuplicateKernel` on a kernel outside any module with a suffix containing an upper-case
-  letter: `get_or_create_item_from_item` looks the raw name up in a plain dict of lower-cased definition names and
-  ends in `RuntimeError('Failed to clone item …')`; with the lower-cased suffix it succeeds.
+* `duplicate-suffix-case` (FIXED; regression statement about the old behaviour): `DuplicateKernel` on a kernel outside
+  any module with a suffix containing an upper-case letter: `get_or_create_item_from_item` looked the raw name up in a
+  plain dict of lower-cased definition names and ended in `RuntimeError('Failed to clone item …')`.
 -/
 namespace LokiModel.C23.Findings
 open LokiModel.C21 LokiModel.C23
@@ -29,18 +29,28 @@ theorem C23_set_holds_both :
     (pySet sumHash [fooU, fooL]).length = 2 ∧ pyMem sumHash [fooL] fooU = false ∧ listMem [fooL] fooU = true := by
   decide
 
-/-- the cache keys produced by `DuplicateKernel` depend on the case of the suffix for a kernel outside any module -/
-theorem C23_dup_keys_full_false :
-    ¬ ∀ (cache : List Name) (scope loc s s' ms ms' : Name), lower s = lower s' → lower ms = lower ms' →
-        cloneItem cache scope loc s ms = cloneItem cache scope loc s' ms' := by
-  intro hall
-  have := hall [] [] "fk".toList "_Dup".toList "_dup".toList [] [] (by decide) (by decide)
-  revert this
-  decide
+/-- former `get_or_create_item_from_item` (before the `fix:` commit): `definition_items` was a plain dict with
+lower-cased keys, queried with the name as spelled -/
+def cloneItemOld (cache : List Name) (scope loc suffix msuffix : Name) : CloneRes :=
+  let r := newItemName scope loc suffix msuffix
+  let scope' := r.1
+  let name := r.2.2
+  if cacheHas cache name then .ok []
+  else
+    let defs := if scope'.isEmpty then [lower name] else [lower scope']
+    if defs.contains name then .ok defs
+    else if !scope'.isEmpty then .ok (defs ++ [lower name])
+    else .failed
 
-theorem C23_dup_witness :
-    cloneItem [] [] "fk".toList "_Dup".toList [] = .failed ∧
-    cloneItem [] [] "fk".toList "_dup".toList [] = .ok ["#fk_dup".toList] ∧
+/-- the former known-finding class `duplicate-suffix-case`: a kernel that is not in a module and a suffix that changes under `.lower()` -/
+def KnownDupSuffixCase (scope loc suffix : Name) : Bool :=
+  scope.isEmpty && decide (lower (loc ++ suffix) ≠ loc ++ suffix)
+
+/-- `duplicate-suffix-case` (fixed): the old code failed for a kernel outside any module and a suffix with an upper-case
+letter, and worked with the lower-cased suffix -/
+theorem C23_old_dup_witness :
+    cloneItemOld [] [] "fk".toList "_Dup".toList [] = .failed ∧
+    cloneItemOld [] [] "fk".toList "_dup".toList [] = .ok ["#fk_dup".toList] ∧
     KnownDupSuffixCase [] "fk".toList "_Dup".toList = true := by decide
 
 end LokiModel.C23.Findings
